@@ -366,7 +366,8 @@ def execute(case):
                         v.add("C14:file-vs-api-same-values", "options %s give different bytes from a file and from the API" % eff, probe=p)
             # ---- print-config dumps
             dargv = ["--print-config", "current", parg(p)] + cli_args(cli)
-            rd = core.run_inv(sc, {"argv": dargv, "cwd": case["cwd"], "env": env, "hashseed": case["hashseed"]})
+            rd = core.run_inv(sc, {"argv": dargv, "cwd": case["cwd"], "env": env, "hashseed": case["hashseed"],
+                                   "plan": [[], ["* write 0 @1 short 700,5,64"], ["* write 1 @1 eintr 1"], ["* write 0 @1 short 1"]][case["hashseed"] % 4]})
             v.account(rd, nontrivial=False)
             rrd = core.run_inv(sc, {"argv": ["--print-config", "current", "zref/" + name, "--config-path", "$ROOT/zref/eff.toml"],
                                     "env": refenv, "hashseed": case["hashseed"]})
